@@ -29,7 +29,7 @@ use std::{
     time::Duration,
 };
 
-use actix_server::verif::{AcceptDriver, AcceptHandle, InFlight, StopHandle, VerifFactory, VerifService, WakerHandle, WorkerDriver};
+use actix_server::verif::{self as hooks, AcceptDriver, AcceptHandle, CounterView, InFlight, Point, StopHandle, VerifFactory, VerifService, WakerHandle, WorkerDriver};
 use futures_core::future::LocalBoxFuture;
 use tokio::sync::oneshot;
 use vh::*;
@@ -216,6 +216,8 @@ struct StopRec {
     issued_at: u64,
     handled_at: Option<u64>, // virtual time of the poll that took it from the channel
     judged: bool,
+    in_poll: bool, // sent while a poll was in progress: that poll may or may not have seen it
+    seen_polls: u32,
 }
 
 struct Case {
@@ -224,7 +226,9 @@ struct Case {
     prompt: bool,
     driver: Option<WorkerDriver>,
     accept: Option<AcceptHandle>,
-    stop: StopHandle,
+    stop: Option<StopHandle>,
+    cview: CounterView,
+    env_delta: i64, // counter changes made by actions that ran inside the current poll
     _ad: AcceptDriver,
     _wh: WakerHandle,
     shared: Rc<RefCell<Shared>>,
@@ -239,13 +243,12 @@ struct Case {
     now: u64,
     poisoned: bool,
     finished: bool,
-    last_raw: usize,
     // ---- oracle bookkeeping (real observations only)
     cur_inc: Vec<usize>,
     w1: bool, // a `send` without `inc` happened: the counter no longer counts the connections
     closed_chan: bool,
-    keep: Option<AcceptHandle>,
     last_raw_seen: usize,
+    in_poll: bool,
 }
 
 struct Harness {
@@ -278,6 +281,7 @@ impl Case {
         .ok()?;
         let wh = wh?;
         let (driver, accept, stop) = WorkerDriver::new(0, &wh, 1_000_000, Duration::from_millis(timeout), factories, initial);
+        let cview = driver.counter_view();
         let cw = Arc::new(CW(AtomicUsize::new(0)));
         let waker = Waker::from(cw.clone());
         Some(Case {
@@ -286,7 +290,9 @@ impl Case {
             prompt,
             driver: Some(driver),
             accept: Some(accept),
-            stop,
+            stop: Some(stop),
+            cview,
+            env_delta: 0,
             _ad: ad,
             _wh: wh,
             shared,
@@ -301,12 +307,11 @@ impl Case {
             now: 0,
             poisoned: false,
             finished: false,
-            last_raw: 1,
             cur_inc: vec![0; n],
             w1: false,
             closed_chan: false,
-            keep: None,
             last_raw_seen: 1,
+            in_poll: false,
         })
     }
 
@@ -317,13 +322,8 @@ impl Case {
         (d > 0) as u8
     }
 
-    fn ghost_inc(&mut self) {}
-
     fn raw(&self) -> usize {
-        match &self.driver {
-            Some(d) => d.counter_raw(),
-            None => self.last_raw,
-        }
+        self.cview.raw()
     }
 
     /// which of the connections still in the channel (as far as the harness knows) have been closed by
@@ -398,6 +398,8 @@ fn do_conn(h: &Harness, c: &mut Case, tok: usize, with_inc: bool, t3: &mut Vec<(
     }
     if !with_inc {
         c.w1 = true;
+    } else {
+        c.env_delta += 1;
     }
     c.next_conn += 1;
     c.clients.insert(id, cl);
@@ -469,27 +471,176 @@ fn oracle_c07(c: &mut Case, evs: &[Evt], stop_handled: bool, t3: &mut Vec<(Strin
     }
 }
 
-fn do_poll(c: &mut Case, t3: &mut Vec<(String, String)>) -> String {
+/// an action of another thread (accept thread, server, a service): also usable inside a `poll`
+fn env_op(h: &Harness, c: &mut Case, ws: &[&str], t3: &mut Vec<(String, String)>) -> Option<String> {
+    Some(match ws {
+        ["conn", t] => match num(t) {
+            Some(t) => do_conn(h, c, t, true, t3),
+            None => "bad-op".into(),
+        },
+        ["send", t] => match num(t) {
+            Some(t) => do_conn(h, c, t, false, t3),
+            None => "bad-op".into(),
+        },
+        ["inc"] => {
+            if c.poisoned {
+                "bad-op".into()
+            } else {
+                match c.accept.as_ref() {
+                    Some(acc) => {
+                        acc.inc_counter();
+                    }
+                    // the accept-side handle is gone: nobody can count any more; the model still does
+                    None => return Some("bad-op".into()),
+                }
+                c.env_delta += 1;
+                "ok".into()
+            }
+        }
+        ["close"] => {
+            if c.poisoned || c.accept.is_none() {
+                "bad-op".into()
+            } else {
+                let hd = c.accept.take();
+                drop(hd);
+                c.closed_chan = true;
+                let w = c.woke();
+                format!("ok woke={}", if c.finished { 0 } else { w })
+            }
+        }
+        ["closestop"] => {
+            if c.poisoned || c.stop.is_none() {
+                "bad-op".into()
+            } else {
+                let hd = c.stop.take();
+                drop(hd);
+                let w = c.woke();
+                format!("ok woke={}", if c.finished { 0 } else { w })
+            }
+        }
+        ["stop", g] if *g == "g" || *g == "f" => {
+            if c.poisoned || c.stop.is_none() {
+                "bad-op".into()
+            } else {
+                let graceful = *g == "g";
+                let mut rx = c.stop.as_ref().unwrap().stop(graceful);
+                let k = c.stops.len();
+                let w = c.woke();
+                let mut resolved = None;
+                if c.finished {
+                    match rx.try_recv() {
+                        Err(oneshot::error::TryRecvError::Closed) => resolved = Some('x'),
+                        Ok(b) => resolved = Some(if b { '1' } else { '0' }),
+                        Err(_) => t3.push(("C06".into(), format!("stop #{k} sent to a finished worker stays unresolved"))),
+                    }
+                }
+                let r = format!("ok s{k} woke={w} reply={}", resolved.map_or("-".to_string(), |c| c.to_string()));
+                c.stops.push(StopRec { graceful, rx, resolved, issued_at: c.now, handled_at: if c.finished { Some(c.now) } else { None }, judged: c.finished, in_poll: c.in_poll, seen_polls: 0 });
+                r
+            }
+        }
+        ["finish", id] => match num(id) {
+            Some(id) if !c.poisoned && c.raw() != 0 => {
+                let pos = c.shared.borrow().inflight.iter().position(|(i, _)| *i as usize == id);
+                match pos {
+                    Some(p) => {
+                        let (cid, inf) = c.shared.borrow_mut().inflight.remove(p);
+                        drop(inf);
+                        c.clients.remove(&cid);
+                        c.env_delta -= 1;
+                        "ok".into()
+                    }
+                    None => "bad-op".into(),
+                }
+            }
+            _ => "bad-op".into(),
+        },
+        _ => return None,
+    })
+}
+
+/// the short form of an action's result, as printed for actions that ran inside a `poll`
+fn short(res: &str) -> String {
+    let ws: Vec<&str> = res.split_whitespace().collect();
+    match ws.as_slice() {
+        ["ok", id, w] if id.starts_with('c') && w.starts_with("woke=") => format!("{id}/{}", &w[5..]),
+        ["ok", k, w, _reply] if k.starts_with('s') && w.starts_with("woke=") => format!("{k}/{}", &w[5..]),
+        ["ok", w] if w.starts_with("woke=") => format!("closed/{}", &w[5..]),
+        ["ok"] => "ok".into(),
+        ["refused"] => "refused".into(),
+        _ => "bad".into(),
+    }
+}
+
+/// syntactic check of `y=<act>,<act>…` (same grammar as the Lean driver)
+fn parse_acts(y: &str) -> Option<Vec<Vec<String>>> {
+    y.split(',')
+        .map(|a| {
+            let p: Vec<&str> = a.split(':').collect();
+            let ok = match p.as_slice() {
+                ["conn", t] | ["send", t] | ["finish", t] => num(t).is_some(),
+                ["inc"] | ["close"] | ["closestop"] => true,
+                ["stop", g] => *g == "g" || *g == "f",
+                _ => false,
+            };
+            if ok { Some(p.iter().map(|x| x.to_string()).collect()) } else { None }
+        })
+        .collect()
+}
+
+/// one call of the real `ServerWorker::poll`; `acts` (if any) run at the worker's yield point of the first
+/// pass: after its look at the `Stop` channel, before the state arm
+fn do_poll(h: &Harness, c: &mut Case, acts: Option<Vec<Vec<String>>>, t3: &mut Vec<(String, String)>) -> String {
     if c.poisoned || c.finished || c.driver.is_none() {
         return "bad-op".into();
     }
     let raw_before = c.raw();
     c.last_raw_seen = raw_before;
+    c.env_delta = 0;
     c.shared.borrow_mut().evs.clear();
     let stop_handled_before = !c.stops.is_empty(); // a Stop sent before this poll is taken at its very top
     let waker = c.waker.clone();
     let mut cx = Context::from_waker(&waker);
-    let drv = c.driver.as_mut().unwrap();
+    // the worker is taken out of the case while it is polled: the actions below must not touch it
+    let mut drv = c.driver.take().unwrap();
+    let act_res: Rc<RefCell<Vec<String>>> = Rc::new(RefCell::new(vec![]));
+    let t3_in: Rc<RefCell<Vec<(String, String)>>> = Rc::new(RefCell::new(vec![]));
+    if let Some(acts) = acts.clone() {
+        let cp: *mut Case = c;
+        let hp: *const Harness = h;
+        let (ar, ti) = (act_res.clone(), t3_in.clone());
+        let mut fired = false;
+        hooks::set_yield_hook(Some(Box::new(move |p: Point| {
+            if p != Point::WorkerAfterStopCheck || fired {
+                return;
+            }
+            fired = true;
+            // SAFETY: single-threaded; the only live borrow is of the worker itself, which is outside `Case` now
+            let (c, h) = unsafe { (&mut *cp, &*hp) };
+            c.in_poll = true;
+            for a in &acts {
+                let ws: Vec<&str> = a.iter().map(|x| x.as_str()).collect();
+                let mut t3 = vec![];
+                let r = env_op(h, c, &ws, &mut t3).unwrap_or_else(|| "bad-op".into());
+                ar.borrow_mut().push(short(&r));
+                ti.borrow_mut().extend(t3);
+            }
+            c.in_poll = false;
+        })));
+    }
     let r = catch(std::panic::AssertUnwindSafe(|| drv.poll(&mut cx)));
+    hooks::set_yield_hook(None);
+    c.in_poll = false;
+    t3.extend(t3_in.borrow_mut().drain(..));
     let evs: Vec<Evt> = c.shared.borrow().evs.clone();
     let ev_s: Vec<String> = evs.iter().map(|e| e.show()).collect();
     let _ = c.woke();
+    let acts_s = if acts.is_some() { format!("acts=[{}] ", act_res.borrow().join(",")) } else { String::new() };
     match r {
         Err(_msg) => {
             c.poisoned = true;
             // the worker is in an unknown state: drop it (a panic while dropping is swallowed too)
-            let d = c.driver.take();
-            let _ = catch(std::panic::AssertUnwindSafe(move || drop(d)));
+            let _ = catch(std::panic::AssertUnwindSafe(move || drop(drv)));
             oracle_c07(c, &evs, stop_handled_before, t3);
             // a panic is expected only for: a factory future that resolved to Err, a token without a service,
             // or the W1 underflow; anything else breaks "that service alone is re-created and serving resumes"
@@ -501,41 +652,47 @@ fn do_poll(c: &mut Case, t3: &mut Vec<(String, String)>) -> String {
             if c.w1 && !c.stops.is_empty() && c.last_raw_seen == 0 {
                 t3.push(("NOTE".into(), format!("W1: Stop handled while the shared counter was transiently 0 (sent, not yet counted, already finished): Counter::total() underflowed and the worker panicked ({_msg}); release builds wrap to usize::MAX instead")));
             }
-            format!("ev=[{}] ret=panic", ev_s.join(","))
+            format!("{acts_s}ev=[{}] ret=panic", ev_s.join(","))
         }
         Ok(p) => {
             let done = p.is_ready();
             let raw_after = c.raw();
-            c.last_raw = raw_after;
             if done {
                 c.finished = true;
-                c.driver = None; // the finished future is dropped, as the runtime does
+                drop(drv); // the finished future is dropped, as the runtime does
+            } else {
+                c.driver = Some(drv);
             }
             oracle_c07(c, &evs, stop_handled_before, t3);
-            // connections the worker closed: `raw_before - raw_after` were released with a guard;
-            // once the future is gone everything still queued is gone with it
-            let expect = if done { c.queued.len() } else { raw_before.saturating_sub(raw_after).min(c.queued.len()) };
+            // connections the worker closed: the counter went down once per connection released with a guard
+            // (corrected by what the in-poll actions did to it); once the future is gone everything still
+            // queued is gone with it
+            let released = (raw_before as i64 + c.env_delta - raw_after as i64).max(0) as usize;
+            let expect = if done { c.queued.len() } else { released.min(c.queued.len()) };
             let closed = c.probe_closed(expect);
             // replies
             let mut reps = vec![];
+            let mut new_replies = vec![];
             for (k, s) in c.stops.iter_mut().enumerate() {
                 if s.resolved.is_none() {
                     match s.rx.try_recv() {
                         Ok(b) => {
                             s.resolved = Some(if b { '1' } else { '0' });
+                            new_replies.push(if b { '1' } else { '0' });
                             reps.push(format!("{k}:{}", b as u8));
                         }
                         Err(oneshot::error::TryRecvError::Closed) => {
                             s.resolved = Some('x');
+                            new_replies.push('x');
                             reps.push(format!("{k}:x"));
                         }
                         Err(oneshot::error::TryRecvError::Empty) => {}
                     }
                 }
             }
-            oracle_c06(c, &evs, &closed, done, raw_before, raw_after, t3);
+            oracle_c06(c, &evs, &closed, done, raw_before, raw_after, &new_replies, t3);
             format!(
-                "ev=[{}] ret={} replies=[{}] closed=[{}] raw={}",
+                "{acts_s}ev=[{}] ret={} replies=[{}] closed=[{}] raw={}",
                 ev_s.join(","),
                 if done { "D" } else { "P" },
                 reps.join(","),
@@ -547,12 +704,18 @@ fn do_poll(c: &mut Case, t3: &mut Vec<(String, String)>) -> String {
 }
 
 /// C06 oracle (worker half) after one successful `poll`; own bookkeeping, real observations only
-fn oracle_c06(c: &mut Case, evs: &[Evt], closed: &[u32], done: bool, raw_before: usize, raw_after: usize, t3: &mut Vec<(String, String)>) {
+fn oracle_c06(c: &mut Case, evs: &[Evt], closed: &[u32], done: bool, raw_before: usize, raw_after: usize, new_replies: &[char], t3: &mut Vec<(String, String)>) {
     let now = c.now;
     if c.stops.is_empty() {
-        // no Stop so far: the worker must neither finish (unless its channel was closed) nor close a connection
-        if done && !c.closed_chan {
-            t3.push(("C06".into(), "the worker future completed although no Stop was sent and its channel is open".into()));
+        // no Stop so far: the worker must not finish — not even when the accept thread has exited and thereby
+        // closed the connection channel (that is not a stop command) — unless the server is gone as well
+        if done && c.stop.is_some() {
+            let inprog = raw_after.wrapping_sub(1);
+            if !c.closed_chan {
+                t3.push(("C06".into(), "the worker future completed although no Stop was sent and its channel is open".into()));
+            } else if inprog != 0 && !c.w1 {
+                t3.push(("C06".into(), format!("the worker future completed without having received a Stop — its connection channel was closed by the accept thread's exit — while {inprog} connection(s) were in progress: they die with the worker, a graceful stop can no longer wait for them")));
+            }
         }
         if !closed.is_empty() && !done {
             t3.push(("C07".into(), format!("queued connection(s) {:?} were dropped by the worker (no Stop was sent)", closed)));
@@ -571,7 +734,19 @@ fn oracle_c06(c: &mut Case, evs: &[Evt], closed: &[u32], done: bool, raw_before:
     }
     let total_after = raw_after.wrapping_sub(1);
     // the oldest Stop not yet taken is taken at the top of this poll; every Stop resolved now was taken too
-    let first_unhandled = c.stops.iter().position(|s| s.handled_at.is_none());
+    // (a Stop sent while a poll was already running may or may not have been seen by that poll: no "taken at the
+    // top of this poll" conclusions for it — it counts as taken now, without the immediacy rules)
+    let fresh_in_poll = |s: &StopRec| s.in_poll && s.issued_at == now && s.handled_at.is_none() && s.resolved.is_none() && s.seen_polls == 0;
+    if c.stops.iter().all(|s| fresh_in_poll(s)) {
+        for s in c.stops.iter_mut() {
+            s.seen_polls += 1;
+        }
+        return; // nothing is known to have been taken yet
+    }
+    let first_unhandled = c.stops.iter().position(|s| s.handled_at.is_none() && !fresh_in_poll(s));
+    for s in c.stops.iter_mut() {
+        s.seen_polls += 1;
+    }
     let mut newly = vec![];
     for (k, s) in c.stops.iter_mut().enumerate() {
         if s.handled_at.is_none() && (Some(k) == first_unhandled || s.resolved.is_some()) {
@@ -594,7 +769,7 @@ fn oracle_c06(c: &mut Case, evs: &[Evt], closed: &[u32], done: bool, raw_before:
             }
             _ => {}
         }
-        if Some(k) == first_unhandled {
+        if Some(k) == first_unhandled && !s.in_poll {
             if !s.graceful && !(done && s.resolved.is_some()) {
                 t3.push(("C06".into(), format!("forced stop #{k} was received but the worker did not answer and finish in that poll")));
             }
@@ -645,6 +820,11 @@ fn oracle_c06(c: &mut Case, evs: &[Evt], closed: &[u32], done: bool, raw_before:
             if s.resolved.is_none() {
                 t3.push(("C06".into(), format!("worker finished but stop #{k} was neither answered nor dropped")));
             }
+        }
+        // a worker that ends with connections in progress must be saying so: some stop is answered `false`
+        // (forced, or shutdown_timeout elapsed) by the poll that ends it
+        if total_after != 0 && !new_replies.contains(&'0') {
+            t3.push(("C06".into(), format!("the worker future completed with {total_after} connection(s) in progress without answering any stop `false` (replies of this poll: {:?}): it was ended by the closed connection channel, not by a stop", new_replies)));
         }
     }
 }
@@ -697,6 +877,8 @@ fn run(a: &Args) {
                 srv_jobs.push((lines_out.len(), line.clone()));
                 None
             }
+            // what C06 demands of the shape of the source (the Lean driver prints what T1 read from it)
+            ["k-shape"] => Some("none-arm-polls-stop=1 run-breaks-on-stopping=1 stop-sends-eagerly=1 await-guard=graceful".into()),
             ["k-total", v] => Some(match num(v) {
                 Some(v) => match catch(|| actix_server::verif::kernel_counter_total(v)) {
                     Ok(t) => t.to_string(),
@@ -706,93 +888,25 @@ fn run(a: &Args) {
             }),
             _ => Some(match case.as_mut() {
                 None => "bad-op".into(),
-                Some(c) => match ws.as_slice() {
-                    ["conn", t] => match num(t) {
-                        Some(t) => do_conn(&h, c, t, true, &mut t3),
-                        None => "bad-op".into(),
-                    },
-                    ["send", t] => match num(t) {
-                        Some(t) => do_conn(&h, c, t, false, &mut t3),
-                        None => "bad-op".into(),
-                    },
-                    ["inc"] => {
-                        if c.poisoned {
-                            "bad-op".into()
-                        } else {
-                            match c.accept.as_ref() {
-                                Some(acc) => {
-                                    acc.inc_counter();
-                                }
-                                None => c.ghost_inc(),
+                Some(c) => match env_op(&h, c, &ws, &mut t3) {
+                    Some(r) => r,
+                    None => match ws.as_slice() {
+                        ["advance", ms] => match num(ms) {
+                            Some(ms) if ms > 0 && !c.poisoned => {
+                                h.rt.block_on(async { tokio::time::advance(Duration::from_millis(ms as u64)).await });
+                                c.now += ms as u64;
+                                let w = c.woke();
+                                format!("ok woke={}", if c.finished { 0 } else { w })
                             }
-                            if c.driver.is_none() {
-                                c.last_raw += 1;
-                            }
-                            "ok".into()
-                        }
-                    }
-                    ["close"] => {
-                        if c.poisoned || c.accept.is_none() {
-                            "bad-op".into()
-                        } else {
-                            c.keep = c.accept.take(); // see `Case::keep`
-                            let h2 = c.keep.take();
-                            drop(h2);
-                            c.closed_chan = true;
-                            let w = c.woke();
-                            format!("ok woke={}", if c.finished { 0 } else { w })
-                        }
-                    }
-                    ["stop", g] if *g == "g" || *g == "f" => {
-                        if c.poisoned {
-                            "bad-op".into()
-                        } else {
-                            let graceful = *g == "g";
-                            let mut rx = c.stop.stop(graceful);
-                            let k = c.stops.len();
-                            let w = c.woke();
-                            let mut resolved = None;
-                            if c.finished {
-                                match rx.try_recv() {
-                                    Err(oneshot::error::TryRecvError::Closed) => resolved = Some('x'),
-                                    Ok(b) => resolved = Some(if b { '1' } else { '0' }),
-                                    Err(_) => t3.push(("C06".into(), format!("stop #{k} sent to a finished worker stays unresolved"))),
-                                }
-                            }
-                            let r = format!("ok s{k} woke={w} reply={}", resolved.map_or("-".to_string(), |c| c.to_string()));
-                            c.stops.push(StopRec { graceful, rx, resolved, issued_at: c.now, handled_at: if c.finished { Some(c.now) } else { None }, judged: c.finished });
-                            r
-                        }
-                    }
-                    ["finish", id] => match num(id) {
-                        Some(id) if !c.poisoned && c.raw() != 0 => {
-                            let pos = c.shared.borrow().inflight.iter().position(|(i, _)| *i as usize == id);
-                            match pos {
-                                Some(p) => {
-                                    let (cid, inf) = c.shared.borrow_mut().inflight.remove(p);
-                                    drop(inf);
-                                    c.clients.remove(&cid);
-                                    if c.driver.is_none() {
-                                        c.last_raw -= 1;
-                                    }
-                                    "ok".into()
-                                }
-                                None => "bad-op".into(),
-                            }
-                        }
+                            _ => "bad-op".into(),
+                        },
+                        ["poll"] => do_poll(&h, c, None, &mut t3),
+                        ["poll", y] if y.starts_with("y=") => match parse_acts(&y[2..]) {
+                            Some(acts) => do_poll(&h, c, Some(acts), &mut t3),
+                            None => "bad-op".into(),
+                        },
                         _ => "bad-op".into(),
                     },
-                    ["advance", ms] => match num(ms) {
-                        Some(ms) if ms > 0 && !c.poisoned => {
-                            h.rt.block_on(async { tokio::time::advance(Duration::from_millis(ms as u64)).await });
-                            c.now += ms as u64;
-                            let w = c.woke();
-                            format!("ok woke={}", if c.finished { 0 } else { w })
-                        }
-                        _ => "bad-op".into(),
-                    },
-                    ["poll"] => do_poll(c, &mut t3),
-                    _ => "bad-op".into(),
                 },
             }),
         };
@@ -1565,8 +1679,14 @@ mod gen {
             } else if r < 94 {
                 writeln!(w, "poll").unwrap();
             } else if r < 96 {
-                if rng.chance(1, 3) {
-                    writeln!(w, "close").unwrap();
+                if prop == "C06" && rng.chance(1, 3) {
+                    // the accept thread exits / the server goes away (C06 only: what the worker does then is F8)
+                    writeln!(w, "{}", if rng.chance(3, 4) { "close" } else { "closestop" }).unwrap();
+                } else if prop == "C06" && rng.chance(1, 4) {
+                    let acts = ["stop:g", "stop:f", "close", "conn:0", "finish:0", "inc", "closestop", "send:0"];
+                    let k = rng.range(1, 3);
+                    let v: Vec<&str> = (0..k).map(|_| *rng.pick(&acts)).collect();
+                    writeln!(w, "poll y={}", v.join(",")).unwrap();
                 } else {
                     writeln!(w, "conn {}", rng.below(n)).unwrap();
                     conns += 1;
@@ -1672,6 +1792,57 @@ mod gen {
                 }
             }
         }
+        // F8: the accept thread exits (closes the connection channel) before / while / after the Stop arrives
+        let mut j = 0;
+        for graceful in ["g", "f"] {
+            for inprog in 0..=2usize {
+                for queued in 0..=1usize {
+                    for variant in 0..5usize {
+                        writeln!(w, "case x{j} n=1 timeout=2000 prompt=1 s0=.").unwrap();
+                        j += 1;
+                        for _ in 0..inprog {
+                            writeln!(w, "conn 0").unwrap();
+                        }
+                        writeln!(w, "poll").unwrap();
+                        for _ in 0..queued {
+                            writeln!(w, "conn 0").unwrap();
+                        }
+                        match variant {
+                            0 => {
+                                writeln!(w, "close").unwrap();
+                                writeln!(w, "poll").unwrap();
+                                writeln!(w, "stop {graceful}").unwrap();
+                                writeln!(w, "poll").unwrap();
+                            }
+                            1 => {
+                                writeln!(w, "poll y=stop:{graceful},close").unwrap();
+                            }
+                            2 => {
+                                writeln!(w, "poll y=close,stop:{graceful}").unwrap();
+                            }
+                            3 => {
+                                writeln!(w, "stop {graceful}").unwrap();
+                                writeln!(w, "close").unwrap();
+                                writeln!(w, "poll").unwrap();
+                            }
+                            _ => {
+                                writeln!(w, "close").unwrap();
+                                writeln!(w, "poll").unwrap();
+                                writeln!(w, "closestop").unwrap();
+                                writeln!(w, "poll").unwrap();
+                            }
+                        }
+                        for t in 0..3 {
+                            writeln!(w, "advance 1000").unwrap();
+                            if t == 0 && inprog > 0 {
+                                writeln!(w, "finish 0").unwrap();
+                            }
+                            writeln!(w, "poll").unwrap();
+                        }
+                    }
+                }
+            }
+        }
         // window W1: the accept thread has sent but not yet counted a connection when Stop arrives
         for graceful in [true, false] {
             writeln!(w, "case w1_{} n=1 timeout=1000 s0=.", graceful as u8).unwrap();
@@ -1698,6 +1869,9 @@ mod gen {
         writeln!(w, "case kernels n=1 timeout=0").unwrap();
         for v in 0..=5 {
             writeln!(w, "k-total {v}").unwrap();
+        }
+        if prop == "C06" {
+            writeln!(w, "k-shape").unwrap();
         }
         if prop == "C07" {
             if thorough {
